@@ -182,7 +182,9 @@ Child(sn, name) == sn.kids[CHOOSE i \in 1..Len(sn.kids) : sn.kids[i].n = name]
 
 \* the children (data nodes) of a node of psn belong to at most one case of every choice
 CasesOK(psn, kids) ==
-  \A i, j \in 1..Len(kids) : (HasChild(psn, kids[i].n) /\ HasChild(psn, kids[j].n)) => ~OtherCase(Child(psn, kids[i].n).cs, Child(psn, kids[j].n).cs)
+  LET names == {kids[i].n : i \in 1..Len(kids)}
+      tags == {psn.kids[j].cs : j \in {k \in 1..Len(psn.kids) : psn.kids[k].cs # "" /\ psn.kids[k].n \in names}}
+  IN \A a, b \in tags : ~OtherCase(a, b)
 
 \* -------------------------------------------------------------------- trees
 N(n, vals, kids) == [n |-> n, vals |-> vals, kids |-> kids]
@@ -755,14 +757,21 @@ LitOK(csn, v, lits) ==
   \/ \E id \in IdsOf(csn.ty) :
           /\ IdVal(csn.mod, id) = v
           /\ \E l \in lits : l.s = IdQual(id) \/ (l.ns = NsOf(id.mod) /\ l.rest = id.name)
+\* how a value that is no literal of the input relates to one: it is a literal without its leading "<prefix>:"
+\* (a name that still has a prefix after that was a qualified name with one more prefix in front)
+DropHow(v, lits) ==
+  IF \E l \in lits : /\ Len(l.s) > Len(v) + 1 /\ SubSeq(l.s, Len(l.s) - Len(v) + 1, Len(l.s)) = v
+                      /\ Ch(l.s, Len(l.s) - Len(v)) = ":"
+  THEN (IF IdxOf(v, ":") > 0 THEN ":prefix-dropped-from-qualified-name" ELSE ":prefix-dropped") ELSE ""
 RECURSIVE AlteredIn(_, _, _), AlteredKids(_, _, _, _)
-\* "" or the type of the first altered leaf
+\* "" or the type of the first altered leaf (and how it was altered, if that can be told)
 AlteredKids(psn, kids, lits, i) ==
   IF i > Len(kids) THEN ""
   ELSE LET r == IF HasChild(psn, kids[i].n) THEN AlteredIn(Child(psn, kids[i].n), kids[i], lits) ELSE ""
        IN IF r # "" THEN r ELSE AlteredKids(psn, kids, lits, i + 1)
 AlteredIn(sn, t, lits) ==
-  CASE sn.k \in {"leaf", "ll"} -> IF \A i \in 1..Len(t.vals) : LitOK(sn, t.vals[i], lits) THEN "" ELSE sn.ty.b
+  CASE sn.k \in {"leaf", "ll"} -> LET bad == {i \in 1..Len(t.vals) : ~LitOK(sn, t.vals[i], lits)} IN
+                                  IF bad = {} THEN "" ELSE sn.ty.b \o DropHow(t.vals[MinOf(bad)], lits)
     [] sn.k \in {"cont", "root"} -> AlteredKids(sn, t.kids, lits, 1)
     [] sn.k = "list" -> LET bad == {i \in 1..Len(t.kids) : AlteredKids(sn, t.kids[i].kids, lits, 1) # ""} IN
                         IF bad = {} THEN "" ELSE AlteredKids(sn, t.kids[MinOf(bad)].kids, lits, 1)
